@@ -196,3 +196,17 @@ Fixpoint chan_trace (c : chan) (ups : list upload) : res (list (option published
     do r <- chan_trace (o_chan o) rest;
     Ok (o_pub o :: fst r, snd r)
   end.
+
+Fixpoint run_preb (c : chan) (ups : list upload) : bool :=
+  match ups with
+  | [] => true
+  | u :: rest => chan_pre c u &&
+                 match chan_received c (up_name u) (up_item u) with
+                 | Ok o => run_preb (o_chan o) rest
+                 | _ => true
+                 end
+  end.
+
+(** a segment of 2 s at 90 kHz with number [n], starting at n * 2 s *)
+Definition seg2s (n : Z) : item := mkItem n (n * 180000) 180000 false.
+Definition up (name n : Z) : upload := mkUp name (seg2s n).
